@@ -121,7 +121,7 @@ Definition last_or (d : Z) (l : list Z) : Z := last l d.
 Record pst := mkP { p_last : Z; p_nback : Z; p_prev : Z; p_clock : list Z;
                     p5 : bool; p1 : bool; p2 : bool; p3 : bool }.
 
-Definition prop_step (eff : Z) (nonneg inrange : bool) (p : pst) (o : Z * Z * Z) : pst :=
+Definition prop_step (eff : Z) (sane nonneg inrange : bool) (p : pst) (o : Z * Z * Z) : pst :=
   let '(k, v, c) := o in
   let rs := firstn (Z.to_nat c) (p_clock p) in
   let rest := skipn (Z.to_nat c) (p_clock p) in
@@ -138,7 +138,7 @@ Definition prop_step (eff : Z) (nonneg inrange : bool) (p : pst) (o : Z * Z * Z)
     (if nonneg && refused then k =? 2 else true) in
   (* sentence 2: the id splits into the values that produced it *)
   let ok1 :=
-    if k =? 0 then
+    if (k =? 0) && sane then
       let '(b, t, m, s) := split_id v in
       (0 <? v) && (v <? 2 ^ 63) && (t =? final) && (m =? eff mod 2 ^ mbits) &&
       (if nonneg then b =? nback' else true)
@@ -154,9 +154,12 @@ Definition prop_step (eff : Z) (nonneg inrange : bool) (p : pst) (o : Z * Z * Z)
 
 Definition prop_gen (g : gen) : verdict :=
   let all := g_t0 g :: g_clock g in
+  (* readings below -2^39 units: the shifted time wraps in int64, the field sentences (and
+     c09_decode) do not speak about such clocks; monotonicity still does *)
+  let sane := forallb (fun t => - 2 ^ 39 <=? t) all in
   let nonneg := forallb (fun t => 0 <=? t) all in
   let inrange := nonneg && forallb (fun t => t <=? maxTU) all in
-  let p := fold_left (prop_step (g_mid g) nonneg inrange) (g_obs g)
+  let p := fold_left (prop_step (g_mid g) sane nonneg inrange) (g_obs g)
                      (mkP (g_t0 g) 0 0 (g_clock g) true true true true) in
   (* outcome kind 6: the call never returned (the harness found its goroutine parked on the
      generator's mutex with nobody inside Next): generation must not stop *)
